@@ -241,7 +241,8 @@ def reuse_histories(calls, seed, n, S=4):
         d0 = 1 + rng.below(S)
         hs = []
         for j in range(k):
-            call = calls[rng.below(len(calls))]
+            # the last call is of the kind under test; what precedes it on the object may be any transform
+            call = calls[rng.below(len(calls))] if (j == k - 1 or rng.below(3) == 0) else ['ntt', 'intt', 'ext', 'ext'][rng.below(4)]
             mode = (i + j) % 4
             d = d0 if mode != 3 else rng.below(S + 1)
             e = rng.below(S - d + 1) if call == 'ext' else 0
